@@ -754,6 +754,11 @@ TRUSTED = [
     "build configuration -DNDEBUG -DREPROC_MULTITHREADED (the baseline's): ASSERT() is compiled out",
     "sequential execution; no signal handler runs inside the library",
     "parent/child coupling across fork is rely/guarantee over the assumed pipe law (verif_read error-pipe clause)",
+    "the environment interrupts the same system call (EINTR) at most VERIF_MAX_EINTR = 2 times in a row (unwinding assertions on)",
+    "assumed OS laws of the contract layer: read returns 0 for a request of n > 0 bytes exactly at end of stream; a pipe created later is a new object; "
+    "close releases the descriptor even when it reports an error (Linux); write of n > 0 bytes to a pipe never returns 0; "
+    "the 4-byte reports on the fork/exec error pipes are read atomically or not at all",
+    "process_fork_parent_st is the only harness built without REPROC_MULTITHREADED (sigprocmask path); everything else is decided for the baseline configuration",
 ]
 
 
